@@ -269,7 +269,15 @@ func checkCover(r *region, tris [][3]kit.V2, opt coverOpts, o *kit.Obs) error {
 	tolO := 1e-9*r.area + floor
 	for i := range proper {
 		for j := i + 1; j < len(proper); j++ {
-			if ov := kit.TriTriOverlapArea2(proper[i], proper[j]); ov > tolO {
+			// in a frame with its origin at a vertex of the first triangle: far from the origin the clipping
+			// arithmetic would otherwise lose 1e-16 x (distance x size) of area to cancellation (differences of
+			// nearby floats are exact, so moving the origin costs nothing)
+			org := proper[i][0]
+			var a, b [3]kit.V2
+			for k := 0; k < 3; k++ {
+				a[k], b[k] = proper[i][k].Sub(org), proper[j][k].Sub(org)
+			}
+			if ov := kit.TriTriOverlapArea2(a, b); ov > tolO {
 				return fmt.Errorf("triangles %v and %v overlap in an area of %g (region area %g)", proper[i], proper[j], ov, r.area)
 			}
 		}
